@@ -10,6 +10,7 @@ import (
 	"grog/internal/dag"
 	"grog/internal/hashing"
 	"grog/internal/label"
+	"grog/internal/maps"
 	"grog/internal/model"
 	"grog/internal/output"
 	"grog/internal/output/handlers"
@@ -44,6 +45,9 @@ type Executor struct {
 	loadOutputsMode  config.LoadOutputsMode
 	targetHasher     *hashing.TargetHasher
 	streamLogsToggle *console.StreamLogsToggle
+	// Several dependants may need the outputs of the same dependency at the same time
+	// (load_outputs=minimal): make sure it is loaded or re-run by only one of them
+	dependencyLoadMutexMap *maps.MutexMap
 }
 
 func NewExecutor(
@@ -66,6 +70,8 @@ func NewExecutor(
 		loadOutputsMode:  loadOutputsMode,
 		targetHasher:     hashing.NewTargetHasher(graph),
 		streamLogsToggle: console.NewStreamLogsToggle(streamLogs),
+
+		dependencyLoadMutexMap: maps.NewMutexMap(),
 	}
 }
 
@@ -455,6 +461,33 @@ func (e *Executor) LoadDependencyOutputs(
 		target.Label,
 	)
 	for _, dep := range e.graph.GetTargetDependencies(target) {
+		if err := e.loadDependencyOutput(ctx, target, dep, update); err != nil {
+			return err
+		}
+	}
+
+	return nil
+}
+
+// loadDependencyOutput loads (or, failing that, re-runs) a single dependency of target.
+func (e *Executor) loadDependencyOutput(
+	ctx context.Context,
+	target *model.Target,
+	dep *model.Target,
+	update worker.StatusFunc,
+) error {
+	logger := console.GetLogger(ctx)
+
+	// Only one dependant at a time may load or re-run the same dependency:
+	// two concurrent re-runs would execute its command twice and race on its outputs
+	e.dependencyLoadMutexMap.Lock(dep.Label.String())
+	defer e.dependencyLoadMutexMap.Unlock(dep.Label.String())
+	if dep.OutputsLoaded {
+		// Another dependant (or the dependency itself) already put the outputs in place
+		return nil
+	}
+
+	{
 		localDep := dep
 		// Function to re-run a dependency in case we
 		rerunDependency := func() error {
